@@ -141,6 +141,9 @@ class DepSet(boolean.AndRestriction, caching=False):
                             words.appendleft((k2,))
                         else:
                             k3 = next(words)
+                            # the rename target has to be a plain file name
+                            if k3 in ("(", ")", "->"):
+                                raise DepsetParseError(dep_str, k3, attr=attr)
                             # file rename
                             depsets[-1].append(element_func(k, k3))
                 else:
